@@ -92,6 +92,9 @@ SITES = [
     ("d3", "e.jets().Select(lambda j: j.trks().Select(lambda t: {c1}))", [("Trk", "t", 1)], ("Select",)),
     ("d3where", "e.jets().Select(lambda j: j.trks().Where(lambda t: {c1} > j.pt()))", [("Trk", "t", 1)], ("Select",)),
     ("d2+d3", "e.jets().Select(lambda j: j.trks().Select(lambda t: {c1} + {c2}))", [("Trk", "t", 1), ("Jet", "j", 2)], ("Select",)),
+    ("d2selmany", "e.jets().SelectMany(lambda j: j.trks()).Select(lambda t: {c1})", [("Trk", "t", 1)], ("Select", "SelectMany")),
+    ("d2selmany-in", "e.jets().SelectMany(lambda j: j.trks().Where(lambda t: {c1} > 0))", [("Trk", "t", 1)], ("Select", "SelectMany")),
+    ("d1-and-d3", "{c1} + e.jets().Select(lambda j: j.trks().Select(lambda t: {c2}).First()).First()", [("Ev", "e", 1), ("Trk", "t", 2)], ("Select", "Where")),
     ("none", "e.a() + e.jets().Select(lambda j: j.pt()).First()", [], ("Select", "Where")),
 ]
 
@@ -137,7 +140,7 @@ class C09(Check):
         site = next(s for s in SITES if s[0] == sname)
         calls = [call_text(place, var, arg) for (_, var, arg) in site[2]]
         body = site[1].format(c1=calls[0] if calls else "", c2=calls[1] if len(calls) > 1 else "")
-        if op == "Where" and sname in ("d1", "d1x2", "none"):
+        if op == "Where" and sname in ("d1", "d1x2", "none", "d1-and-d3"):
             body = f"({body}) > 1"
         lam = f"lambda e: {body}"
         canon = repr(payload)
@@ -270,7 +273,11 @@ def reference_sites(lam_src):
                 if isinstance(r, tuple) and r[0] == "seq" and f.attr in ("Select", "Where", "SelectMany"):
                     lam = n.args[0]
                     inner = ty(lam.body, dict(env, **{lam.args.args[0].arg: r[1]}))
-                    return r if f.attr == "Where" else ("seq", inner if isinstance(inner, str) else None)
+                    if f.attr == "Where":
+                        return r
+                    if f.attr == "SelectMany":
+                        return inner if isinstance(inner, tuple) else ("seq", None)
+                    return ("seq", inner if isinstance(inner, str) else None)
                 if isinstance(r, tuple) and r[0] == "seq" and f.attr == "First":
                     return r[1]
                 for a in n.args:
